@@ -233,16 +233,20 @@ func (g *grpcClient) NewConn(
 	spec Spec,
 	header http.Header,
 ) StreamingClientConn {
-	// The header map may belong to a Request that was sent before: a timeout
-	// left over from that call must not outlive its deadline.
-	delete(header, grpcHeaderTimeout)
-	if deadline, ok := ctx.Deadline(); ok {
-		if encodedDeadline, err := grpcEncodeTimeout(time.Until(deadline)); err == nil {
-			// Tests verify that the error in encodeTimeout is unreachable, so we
-			// don't need to handle the error case.
-			header[grpcHeaderTimeout] = []string{encodedDeadline}
+	setTimeout := func() {
+		// The header map may belong to a Request that was sent before: a timeout
+		// left over from that call must not outlive its deadline.
+		delete(header, grpcHeaderTimeout)
+		if deadline, ok := ctx.Deadline(); ok {
+			if encodedDeadline, err := grpcEncodeTimeout(time.Until(deadline)); err == nil {
+				// Tests verify that the error in encodeTimeout is unreachable, so we
+				// don't need to handle the error case.
+				header[grpcHeaderTimeout] = []string{encodedDeadline}
+			}
 		}
 	}
+	// Interceptors may look at the header now...
+	setTimeout()
 	duplexCall := newDuplexHTTPCall(
 		ctx,
 		g.HTTPClient,
@@ -250,6 +254,10 @@ func (g *grpcClient) NewConn(
 		spec,
 		header,
 	)
+	// ...but a stream may sit idle before its first Send: what goes on the wire
+	// is the time remaining then, or the server's deadline would be later than
+	// the caller's.
+	duplexCall.SetBeforeRequest(setTimeout)
 	conn := &grpcClientConn{
 		spec:             spec,
 		duplexCall:       duplexCall,
